@@ -68,7 +68,7 @@ CHECKS["C18"] = ("shard", "exploration",
 XORB_NOTE = "Trusted: the independent xorb parser and hash code (sim/src/refmodel.rs), blake3; compressed chunk payloads are compared through the original input (C07) or decoded with /repo's own decoder (C08.d), since no independent LZ4/BG4 decoder is available offline."
 CHECKS["C07"] = ("stream/xorb", "exploration",
     "reader-seam simulation (seeded short reads on Read+Seek, tokio AsyncRead with short reads and Pending, Stream<Bytes> fragmentation) of the xorb decoders against the original bytes and an independent xorb parser",
-    "Chunk lists of 1..600 chunks (1 B..128 KiB, every residue mod 4; random, compressible, float-like content) are serialised by the real code under None/LZ4/BG4+LZ4/automatic selection and read back whole, by every chunk range (all ranges up to 12 chunks, sampled beyond) and through the three chunk decoders under simulated delivery; boundaries, unpacked offsets and lengths are compared with the input. Inputs are seeded generation; the simulated part is the reader side.",
+    "Chunk lists of 1..600 chunks (occasionally up to the 8192-chunk maximum; 1 B..128 KiB, every residue mod 4; random, compressible, float-like content) are serialised by the real code under None/LZ4/BG4+LZ4/automatic selection and read back whole, by every chunk range (all ranges up to 12 chunks, sampled beyond) and through the three chunk decoders under simulated delivery; boundaries, unpacked offsets and lengths are compared with the input. Inputs are seeded generation; the simulated part is the reader side.",
     XORB_NOTE, "§7 C07")
 CHECKS["C08"] = ("stream/xorb", "fault_enumeration",
     "fault injection on stored/transmitted xorb bytes (enumerated single-byte flips of every header/footer byte and truncation at every offset for small objects; seeded splices, field inflation, random strings) with panic capture, counting allocator and independent re-verification of every acceptance",
